@@ -12,7 +12,7 @@ use super::target::api_tokens;
 #[cfg(verif_n6)]
 pub const N: usize = 5;
 #[cfg(not(verif_n6))]
-pub const N: usize = 4;
+pub const N: usize = 2;
 
 fn utf16_len(b: &[u8]) -> u32 {
     let mut n = 0u32;
@@ -106,9 +106,9 @@ pub fn dispatch<S: Src>(name: &str, s: &mut S) -> bool {
 mod proofs {
     use super::*;
     #[kani::proof]
-    #[kani::unwind(8)]
+    #[kani::unwind(5)]
     fn tokens_decode_to_source_pieces() { super::tokens_decode_to_source_pieces(&mut KaniSrc) }
     #[kani::proof]
-    #[kani::unwind(8)]
+    #[kani::unwind(5)]
     fn canary_tokens() { super::canary_tokens(&mut KaniSrc) }
 }
